@@ -47,7 +47,7 @@ that entry (`i+1` lines left to return), with the buffer dropped. -/
 theorem seekTS_found (hP : entryLimit ≤ P.maxEntry) (ctx : SeekCtx tsOf lines)
     (hsize : (render lines).length < 2 ^ 63) (i : Nat) (hi : i < lines.length)
     (hts : tsOf lines[i] = target) (q : QState) :
-    ∃ d, seekTS P (fileOfLines lines) tsOf q target =
+    ∃ d, 2 ^ d ≤ (render lines).length ∧ seekTS P (fileOfLines lines) tsOf q target =
       ({ q with hasBuf := false, position := (render (lines.take (i + 1))).length - 1 },
        .ok ((render (lines.take (i + 1))).length - 1, d)) := by
   have hne : (fileOfLines lines).size ≠ 0 := by
@@ -70,7 +70,7 @@ theorem seekTS_found (hP : entryLimit ≤ P.maxEntry) (ctx : SeekCtx tsOf lines)
     simp [List.take_append, List.take_of_length_le]
   have hpos : (render (lines.take (i + 1))).length - 1 = (render ([] ++ N1)).length + x.length := by
     rw [htake, render_snoc_length]; simp
-  refine ⟨d', ?_⟩
+  refine ⟨d', hbound, ?_⟩
   unfold seekTS
   simp only [hne, if_false, hloop, hpos]
 
@@ -107,6 +107,7 @@ binary search probes first, not necessarily the first or the last of the run. -/
 theorem seekTS_found_le (hP : entryLimit ≤ P.maxEntry) (ctx : SeekCtxLe tsOf lines)
     (hsize : (render lines).length < 2 ^ 63) (hex : ∃ l ∈ lines, tsOf l = target) (q : QState) :
     ∃ (i : Nat) (hi : i < lines.length) (d : Nat), tsOf lines[i] = target ∧
+      2 ^ d ≤ (render lines).length ∧
       seekTS P (fileOfLines lines) tsOf q target =
         ({ q with hasBuf := false, position := (render (lines.take (i + 1))).length - 1 },
          .ok ((render (lines.take (i + 1))).length - 1, d)) := by
@@ -128,7 +129,7 @@ theorem seekTS_found_le (hP : entryLimit ≤ P.maxEntry) (ctx : SeekCtxLe tsOf l
     simp [List.take_append, List.take_of_length_le]
   have hpos : (render (lines.take (N1.length + 1))).length - 1 = (render ([] ++ N1)).length + x.length := by
     rw [htake, render_snoc_length]; simp
-  refine ⟨N1.length, hlen, d', by rw [hxi]; exact hx, ?_⟩
+  refine ⟨N1.length, hlen, d', by rw [hxi]; exact hx, hbound, ?_⟩
   unfold seekTS
   simp only [hne, if_false, hloop, hpos]
 
